@@ -9,7 +9,7 @@ Three monitors:
 import math
 
 from .. import env  # noqa: F401
-from .. import gen, build, mcase, monitors
+from .. import gen, build, mcase, monitors, oracles
 
 ID = "C07"
 CASES = {"quick": 6000, "thorough": 150000}
@@ -26,7 +26,7 @@ ANCHORS = [("leuvenmapmatching/matcher/base.py", "LatticeColumn.prune"),
            ("leuvenmapmatching/matcher/base.py", "BaseMatching._update_inner")]
 FLOORS = {"windows": 8000, "windows_with_postponed": 1500, "ne_windows_with_postponed": 200, "tie_extension_windows": 100,
           "widenings": 400, "pruned_vs_unpruned": 1500, "pruning_changed_result": 80, "wide_enough_runs": 800, "parents_checked": 8000,
-          "widening_complete_to_complete": 150, "ne_filter_entries_compared": 3000, "ne_filter_entries_compared_pruned": 800, "pruned_vs_unpruned:exhaustive-configuration": 1500}
+          "widening_complete_to_complete": 150, "ne_filter_entries_compared": 3000, "ne_filter_entries_compared_pruned": 800, "pruned_vs_unpruned:exhaustive-configuration": 1500, "end_parents_checked": 20000, "end_parents_from_earlier_rounds": 300}
 ASSUMPTIONS = ["'plus exact ties' is read as part of the definition of the expanded set: a candidate exactly tied with an expanded one is expanded "
                "too, hence the strict clause max(postponed) < min(expanded) (validated on the unchanged tree, DESIGN.md C07)",
                "pruned-vs-unpruned and widening clauses compare first-order or second-order runs alike: only index and best probability",
@@ -51,7 +51,7 @@ def gen_case(rng, i, tier):
         case = mcase.gen_large_mcase(rng, width=True)
         case["ops"] = gen.gen_history(rng, len(case["trace"]), case["cfg"]["width"], allow_cwd=False, allow_restart=False, max_ops=2, unique=False)
         return case
-    case = mcase.gen_mcase(rng, width=True, tighten_p=0.25, sparse_p=0.35, max_obs=10,
+    case = mcase.gen_mcase(rng, families=gen.FAMILIES_ALL, width=True, tighten_p=0.25, sparse_p=0.35, max_obs=10,
                            kinds=("random", "grid", "grid", "chain", "chain_dyadic"))
     n = len(case["trace"])
     case["ops"] = gen.gen_history(rng, n, case["cfg"]["width"], allow_cwd=False, allow_restart=False, max_ops=4, unique=False)
@@ -59,7 +59,11 @@ def gen_case(rng, i, tier):
 
 
 def close_leq(a, b):
-    """a <= b up to 1e-9 relative"""
+    """a <= b up to 1e-9 relative (equal infinities compare equal)"""
+    if a == b:
+        return True
+    if math.isinf(a) or math.isinf(b):
+        return a < b
     return a <= b + 1e-9 * max(1.0, abs(a), abs(b))
 
 
@@ -116,7 +120,7 @@ def check_case(ctx, case):
     monitors.run_history(mt, tr, case["ops"], after=after)
     # (1) online window monitor verdicts produced during this case
     for kind, where, text in mon.viol[nv0:nv0 + 3]:
-        ctx.violation(f"C07:window:{kind}:{'ne' if where[0] == 'ne' else 'e'}", case, f"at {where}: {text}")
+        ctx.violation(f"C07:window:{kind}:{where[0]}", case, f"at {where}: {text}")
     # (2) pruned vs unpruned siblings, full trace
     res = {}
     for name, w in (("pruned", cfg["width"]), ("unpruned", None)):
@@ -158,7 +162,7 @@ def check_case(ctx, case):
             ctx.violation(f"C07:pruned-run-matched-more-than-unpruned:{mode}", case, f"W={cfg['width']}: pruned idx {pidx}, unpruned idx {uidx}")
         elif p["complete"] and u["complete"] and not close_leq(p["best"], u["best"]):
             ctx.violation(f"C07:pruned-run-more-probable-than-unpruned:{mode}", case, f"W={cfg['width']}: pruned {p['best']!r} > unpruned {u['best']!r}")
-        changed = (pidx != uidx) or (p["complete"] and u["complete"] and abs(p["best"] - u["best"]) > 1e-9 * max(1, abs(u["best"])))
+        changed = (pidx != uidx) or (p["complete"] and u["complete"] and not oracles.close(p["best"], u["best"]))
         if changed:
             ctx.count("pruning_changed_result")
         ctx.count("pruned_vs_unpruned:" + mode.split(":")[0])
@@ -171,7 +175,7 @@ def check_case(ctx, case):
             w = summary(m3, r3, len(tr))
             ctx.count("wide_enough_runs")
             widx = -1 if w["empty"] else w["idx"]
-            if widx != uidx or (w["best"] is not None and u["best"] is not None and abs(w["best"] - u["best"]) > 1e-9 * max(1, abs(u["best"]))):
+            if widx != uidx or (w["best"] is not None and u["best"] is not None and not oracles.close(w["best"], u["best"])):
                 ctx.violation("C07:wide-enough-run-differs-from-unpruned", case,
                               f"W={c3['width']} >= max candidates {u['maxc']}: idx {widx} best {w['best']!r} vs unpruned idx {uidx} best {u['best']!r}")
         except Exception:
@@ -182,7 +186,7 @@ def check_case(ctx, case):
         ctx.count("sibling_raised")
     for kind, where, text in mon.viol[nv0 + 3:]:
         # verdicts from the sibling runs (all are real executions too)
-        ctx.violation(f"C07:window:{kind}:{'ne' if where[0] == 'ne' else 'e'}", case, f"[sibling run] at {where}: {text}")
+        ctx.violation(f"C07:window:{kind}:{where[0]}", case, f"[sibling run] at {where}: {text}")
         break
     ctx.sample(case)
 
